@@ -173,7 +173,15 @@ def rule_empty(ctx):
         res.instance("%s : first reduction `%s`" % (key, reds[0].name))
         first = min(e.order for e in reds)
 
-        def empty_guards(tr_, before):
+        def empty_guards(tr_, before, site=None):
+            """count == 0 -> Err exits before `before`; with `site` (a call event) only exits on the site's own path count:
+            every other condition the exit sits under must also hold at the site"""
+            site_g = set((g[0], g[1]) for g in site.guards) if site is not None else None
+
+            def on_path(e, cmp_key):
+                if site_g is None:
+                    return True
+                return all((g[0], g[1]) in site_g for g in e.guards if g[1] != cmp_key)
             out_ = []
             for e in tr_.events:
                 if e.kind not in ("ret", "iret") or e.order > before:
@@ -183,7 +191,7 @@ def rule_empty(ctx):
                     continue
                 for g in e.guards:
                     for t in walk_terms(g[3]):
-                        if isinstance(t, Cmp) and t.cop == "==" and g[0] == "+" and any(any(w in a for w in COUNT_WORDS) for a in t.poly.atoms()) and t.poly.t.get((), 0) == 0:
+                        if isinstance(t, Cmp) and t.cop == "==" and g[0] == "+" and any(any(w in a for w in COUNT_WORDS) for a in t.poly.atoms()) and t.poly.t.get((), 0) == 0 and on_path(e, g[1]):
                             out_.append(t)
             # `if n == 0 { Err(..) } else { Ok(()) }` as the value of a helper, propagated by the caller's `?`
             for e in tr_.events:
@@ -193,7 +201,7 @@ def rule_empty(ctx):
                     for t in walk_terms(g[3]):
                         if isinstance(t, Cmp) and t.cop == "==" and g[0] == "+" and any(any(w in a for w in COUNT_WORDS) for a in t.poly.atoms()) and t.poly.t.get((), 0) == 0:
                             ek = k(e.val)
-                            if any(x.kind == "try" and e.order < x.order <= before and ek in k(x.val) for x in tr_.events):
+                            if on_path(e, g[1]) and any(x.kind == "try" and e.order < x.order <= before and ek in k(x.val) for x in tr_.events):
                                 out_.append(t)
             return out_
         guards = empty_guards(tr, first)
@@ -212,7 +220,7 @@ def rule_empty(ctx):
                 trg = Tracer(g_, inline=ctx.inliner(keep=(fn["d"]["name"],))).run()
                 sites_ = [e for e in trg.events if e.kind == "call" and e.name == fn["d"]["name"] and e.node.get("k") in ("Call", "MethodCall")]
                 for e in sites_:
-                    callers.append((g_, bool(empty_guards(trg, e.order))))
+                    callers.append((g_, bool(empty_guards(trg, e.order, site=e))))
             if callers and all(okc for _, okc in callers):
                 guards = ["checked by every caller: %s" % sorted(set(fn_key(g_) for g_, _ in callers))]
         if guards:
